@@ -109,6 +109,31 @@ func vnCheckWalk(ast *AST) {
 			vAssert(!(rec.events[j].enter && vnSameNode(rec.events[j].n, e.n)), "node-entered-twice")
 		}
 	}
+	// identifier nodes: every position of the tree that holds a *Var (fields of type *Var and
+	// interface fields holding one; scope tables and the Var.Link chain are not part of the tree)
+	// is entered exactly once: the multiset of entered Vars equals the multiset of positions
+	positions := vNodes(ast, nil, vnPtrs, []string{"Scope", "Var.Link"})
+	nvar := 0
+	for _, e := range rec.events {
+		if _, isVar := e.n.(*Var); isVar && e.enter {
+			nvar++
+		}
+	}
+	vAssert(nvar == len(positions), "identifier-visits-differ-from-identifier-positions")
+	for _, p := range positions {
+		want, got := 0, 0
+		for _, q := range positions {
+			if vnSameNode(p, q) {
+				want++
+			}
+		}
+		for _, e := range rec.events {
+			if e.enter && vnSameNode(e.n, p) {
+				got++
+			}
+		}
+		vAssert(want == got, "identifier-visit-count")
+	}
 	vReach("walk")
 }
 
@@ -136,6 +161,32 @@ var vnWalkSketches = []string{
 	"l:while(a){if(b)break l;continue l}throw c",
 	"import a,{b as c}from'd';export{e as f};export default g",
 	"(a,b)=>c;d=>e;with(f)g;debugger;h=i?j:k,l",
+	// optional children present / absent, one arm at a time
+	"{a}{a}{}",
+	"var a;{a;{a}}{b;{b}}",
+	"if(x){y=x}else{y=-x}if(z)w",
+	"a=tag`abc`;b=c.d`e`;f=`g`;h=`${i}`;j=k`l${m}n${o}`",
+	"for(;;)break;for(a;;)continue;for(;b;);for(;;c);",
+	"switch(a){}switch(b){case c:case d:e;f}switch(g){default:}",
+	"try{a}catch{b}try{c}finally{d}try{}catch(e){}",
+	"function f(){return}function g(){return a}l:for(;;){break l}",
+	"import'a';import b from'c';import*as d from'e';import f,*as g from'h';import{}from'i'",
+	"export*from'a';export*as b from'c';export{d as e}from'f';export var g;export function h(){}export class i{}",
+	"'use strict';a",
+	"class A extends B{constructor(){super()}static{c}static d=e;f;#g(){this.#g}static async*[h](){}}",
+	"a=class{};b=class C{};c=function(){};d=function e(){};f=async function*(){}",
+	"function f(){new.target}import.meta;new a;new b();new c.d(e,...f)",
+	"a=[,b,,...c,];d={e,f:g,[h]:i,...j,k(){},get l(){},set m(n){},async o(){},*p(){}}",
+	"({a=1,b:{c}=d,...e}=f);[g=h,[i],...j]=k",
+	"var[,a,,...b]=c,{d:[e]=f,[g]:h,...i}=j",
+	"a?.b;c?.[d];e?.(f);g?.h`i`;j.k.l;m[n][o];p(q)(r)",
+	"a++;--b;typeof c;void d;delete e.f;!g;~h;-i;+j;await k",
+	"function*f(){yield;yield a;yield*b}",
+	"async()=>a;async b=>{c};(d=e,{f},[g],...h)=>{};async function i(){for await(j of k);}",
+	"a=b?c:d?e:f;g=(h,i);j=k**l**m;n=o??p;q=r in s;t=u instanceof v",
+	"a:b:c;do;while(d);with(e){f}",
+	"let a=1,b;const c=d;var e=function(){e};let f=g=>g(f)",
+	"x=function f(a=f,{b}=a,[c]=b,...d){var e;function g(){}}",
 }
 
 // VerifWalkSketch: one program per arm of Walk's type switch; the k-th Enter returns nil.
